@@ -27,6 +27,7 @@ RULE = (
 ASSUMPTIONS = [
     "accepted targets per fold are computed with mokapot.qvalues.tdc on the recorded raw outputs (its correctness is C01's business)",
     "the refusal's exception type and text are not judged, only that no scores are returned",
+    "folds whose lowest accepted target is not above the decoy median are outside the statement's quantifier (counted as folds_anchor_not_above_decoy_median)",
 ]
 CASE_TIMEOUT = 600
 
@@ -124,6 +125,12 @@ def run_case(case):
             if key not in expected:
                 continue
             exp, a, m, nacc = expected[key]
+            if not a > m:
+                # lowest accepted target not above the decoy median: an increasing affine map cannot send
+                # a -> 0 and m -> -1, the statement's clauses contradict each other there; its quantifier
+                # ("every fold accepts ... above the decoy median") excludes this. Counted, not judged.
+                res.count("folds_anchor_not_above_decoy_median")
+                continue
             ret = np.asarray(out["scores"][key[0]], dtype=float)[pos]
             res.count("folds_checked")
             if nacc >= 5:
@@ -141,7 +148,9 @@ def run_case(case):
                 break
             # stated consequences, checked directly on the returned values
             o = np.argsort(raw, kind="stable")
-            if np.any(np.diff(ret[o])[np.diff(raw[o]) > 0] <= 0):
+            # (float division may map raw outputs one ulp apart to the same value: equality is not a
+            # ranking change, a strict decrease is)
+            if np.any(np.diff(ret[o])[np.diff(raw[o]) > 0] < 0):
                 res.violate("calibration", "ranking_changed", fold=str(key), **extra)
                 break
         res["nontrivial"] = good_folds >= 2
